@@ -34,6 +34,7 @@ type c13Case struct {
 	Extras  []string  `json:"extras,omitempty"`   // non-sample files (other suffixes)
 	ExtraSizes []int  `json:"extra_sizes,omitempty"` // their sizes (smaller, equal to and larger than a sample; other supported sample sizes)
 	DirBin  string    `json:"dir_bin,omitempty"`  // a directory whose name ends in .bin / .dat
+	Stale   int       `json:"stale_report_bytes,omitempty"` // the -o path already holds an older (longer) report of this many bytes
 	Workers int       `json:"workers"`
 	Race    bool      `json:"race,omitempty"` // run the binary / shim built with the race detector
 	Procs   int       `json:"gomaxprocs,omitempty"`
@@ -507,6 +508,20 @@ func checkC13(c c13Case) (Outcome, error) {
 	if c.Scale == "1E6" {
 		budget = time.Duration(2+len(c.Files)) * 2 * time.Minute
 	}
+	if c.Stale > 0 {
+		out.Classes = append(out.Classes, "report-path-already-exists")
+		_ = os.MkdirAll(filepath.Dir(rep), 0o755)
+		var old strings.Builder
+		old.WriteString(hs[c.Scale])
+		for i := 0; old.Len() < c.Stale; i++ {
+			fmt.Fprintf(&old, "old_sample_%d.bin", i)
+			for j := 0; j < 44; j++ {
+				old.WriteString(", 0.500000")
+			}
+			old.WriteString("\n")
+		}
+		_ = os.WriteFile(rep, []byte(old.String()), 0o644)
+	}
 	tool := os.Getenv("VERIF_BIN_RDDETECTOR")
 	if c.Race {
 		tool = os.Getenv("VERIF_BIN_RDDETECTOR_RACE")
@@ -612,6 +627,9 @@ func genC13(t *rapid.T) c13Case {
 		c.Workers = rapid.IntRange(1, 4).Draw(t, "workers")
 	}
 	c.Procs = rapid.SampledFrom([]int{1, 2, 16}).Draw(t, "gomaxprocs")
+	if c.Scale != "1E8" && c.Scale != "1E8hdr" && rapid.IntRange(0, 2).Draw(t, "stale") == 0 {
+		c.Stale = rapid.SampledFrom([]int{1, 500, 20000, 400000}).Draw(t, "stale_bytes")
+	}
 	if v := envInt("VERIF_WORKERS", 0); v > 0 { // shards that pin "one worker, several files" (a worker handles consecutive files)
 		c.Workers = v
 	}
